@@ -135,12 +135,29 @@ fn worker(args: &[String]) -> i32 {
     let start = std::time::Instant::now();
     let opts = spec.opts.clone();
     spawn_hang_monitor(out.to_string());
+    // the last programs executed by this process, and their snapshot at the first failure: a
+    // verdict that depends on what the process did before (state the library carries from one
+    // trace to the next) does not reproduce from the failing program alone
+    let recent: std::cell::RefCell<std::collections::VecDeque<Program>> = std::cell::RefCell::new(std::collections::VecDeque::new());
+    let first_fail: std::cell::RefCell<Option<(Vec<Program>, Program)>> = std::cell::RefCell::new(None);
+    const HISTORY: usize = 64;
     let result = runner.run(&strategy, |p: Program| {
         *RUNNING.lock().unwrap() = Some((std::time::Instant::now(), json!({"property": prop, "variant": variant, "program": p, "expect": "pass"}).to_string()));
         let h = exec::run_case(&p, &opts);
         *RUNNING.lock().unwrap() = None;
         let viols = (spec.oracle)(&h);
         let mut a = acc.borrow_mut();
+        if !a.failed {
+            let unknown_now = viols.iter().any(|v| !known.iter().any(|k| *k == v.sig));
+            if unknown_now {
+                *first_fail.borrow_mut() = Some((recent.borrow().iter().cloned().collect(), p.clone()));
+            }
+            let mut r = recent.borrow_mut();
+            if r.len() == HISTORY {
+                r.pop_front();
+            }
+            r.push_back(p.clone());
+        }
         let unknown: Vec<&Viol> = viols.iter().filter(|v| !known.iter().any(|k| *k == v.sig)).collect();
         if !a.failed {
             a.evaluations += 1;
@@ -188,11 +205,40 @@ fn worker(args: &[String]) -> i32 {
                         break;
                     }
                 }
+                let mut program = p.clone();
+                let mut history: Vec<Program> = vec![];
+                if viols.is_empty() {
+                    // not reproducible alone: execute the programs that preceded the first failing
+                    // case again, the last k of them for growing k, then that case itself
+                    if let Some((hist, orig)) = first_fail.borrow().clone() {
+                        let mut k = 1usize;
+                        'outer: loop {
+                            let k_eff = k.min(hist.len());
+                            for _ in 0..2 {
+                                for hp in &hist[hist.len() - k_eff..] {
+                                    let _ = exec::run_case(hp, &opts);
+                                }
+                                let h = exec::run_case(&orig, &opts);
+                                viols = (spec.oracle)(&h).into_iter().filter(|v| !known.iter().any(|k| *k == v.sig)).collect();
+                                if !viols.is_empty() {
+                                    program = orig.clone();
+                                    history = hist[hist.len() - k_eff..].to_vec();
+                                    break 'outer;
+                                }
+                            }
+                            if k_eff == hist.len() {
+                                break;
+                            }
+                            k *= 2;
+                        }
+                    }
+                }
                 failure = json!({
-                    "signature": reason.to_string(),
-                    "program": p,
+                    "signature": if history.is_empty() { reason.to_string() } else { viols[0].sig.clone() },
+                    "program": program,
+                    "history": history,
                     "reproduced": !viols.is_empty(),
-                    "violations": viols.iter().map(|v| json!({"sig": v.sig, "msg": v.msg})).collect::<Vec<_>>(),
+                    "violations": viols.iter().map(|v| json!({"sig": v.sig, "msg": format!("{}{}", v.msg, if history.is_empty() { String::new() } else { format!(" [only after the {} programs in `history` were executed by the same process: the verdict depends on state carried over from earlier traces]", history.len()) })})).collect::<Vec<_>>(),
                 });
             }
             TestError::Abort(r) => {
@@ -505,6 +551,12 @@ fn replay(args: &[String]) -> i32 {
     let mut opts = spec.opts.clone();
     if arg(args, "--strict").is_some() {
         opts.exclude.clear();
+    }
+    if let Some(hist) = v.get("history").and_then(|h| h.as_array()) {
+        for hp in hist {
+            let hp: Program = serde_json::from_value(hp.clone()).expect("history program");
+            let _ = exec::run_case(&hp, &opts);
+        }
     }
     let h = exec::run_case(&p, &opts);
     let viols = (spec.oracle)(&h);
